@@ -30,8 +30,8 @@ def base_content(game, sizes, keys=4):
         for i, h in enumerate(holds):
             h["hitsound_file"], h["volume"] = f"f{i}.wav", 30
     if game == "bms":
-        for h in hits + holds:
-            h["sample"] = b"a.wav"
+        for i, h in enumerate(hits + holds):
+            h["sample"] = b"a.wav" if i % 3 == 0 else f"s{i}.wav".encode()      # key sounds differ from note to note
     return c
 
 
@@ -122,6 +122,9 @@ def proj_result(op, game, res):
         out = {}
         k = 0
         for o in objs:
+            if hasattr(o, "maps") and hasattr(o, "sample_start"):
+                # set-level timing of a StepMania result: beat 0 and the preview window
+                out[f"set{k}"] = [[f"offset={_m(o.offset)}", f"sample_start={_m(o.sample_start)}", f"sample_length={_m(o.sample_length)}"]]
             for ch in charts_of(o):
                 for name, rows in proj_chart(ch).items():
                     out[f"{k}.{name}"] = rows
